@@ -37,7 +37,7 @@ def data_stim(cfg, cell, first=1, n=None):
     return cell.branch(0).comp(0).data_stimulate(jnp.asarray([float(amp3(k)) for k in range(first, first + n)]), None)
 
 
-def build(cfg, first=1, n=None):
+def build(cfg, first=1, n=None, static_clamp=True):
     """Probe cell of Integrate.tla with the inputs of samples first .. first+n-1 inserted statically."""
     cell = probes.build_cell([3], K)
     a = probes.A()
@@ -48,7 +48,7 @@ def build(cfg, first=1, n=None):
     cell.branch(0).comp(1).stimulate(jnp.asarray([float(amp(k)) for k in ks]), verbose=False)
     if cfg["two"]:
         cell.branch(0).comp(1).stimulate(jnp.asarray([float(amp2(k)) for k in ks]), verbose=False)
-    if cfg["clamp"]:
+    if cfg["clamp"] and static_clamp:
         cell.branch(0).comp(2).clamp("v", jnp.asarray([float(cl(k)) for k in ks]), verbose=False)
     cell.record("v", verbose=False)
     cell.branch(0).comp(0).record("A_s", verbose=False)
@@ -110,6 +110,17 @@ def run_item(it, opts, out):
         again = jx.integrate(cell, voltage_solver=vs, data_stimuli=ds, **kwargs(cfg))
         if not np.array_equal(np.asarray(again), np.asarray(recs)):
             out["mismatch"].append({"kind": "repeat_differs", **sig})
+        if cfg["clamp"]:
+            # C08: data_clamp behaves exactly like clamp (the same module without the static clamp, the series fed as data)
+            c3 = build(cfg, static_clamp=False)
+            dc = c3.branch(0).comp(2).data_clamp("v", jnp.asarray([float(cl(k)) for k in range(1, cfg["tin"] + 1)]), None)
+            try:
+                r3 = jx.integrate(c3, voltage_solver=vs, data_stimuli=data_stim(cfg, c3), data_clamps=dc, **kwargs(cfg))
+                out["runs"] += 1
+                if toks(r3) != want_recs:
+                    out["mismatch"].append({"kind": "data_clamp_differs_from_clamp", **sig, "got": toks(r3), "want": want_recs})
+            except Exception as e:
+                out["mismatch"].append({"kind": "data_clamp_differs_from_clamp", **sig, "err": type(e).__name__ + ": " + str(e)[:150]})
         if it["k"] % opts["modes_every"] == 0:
             # jit, and data_stimulate (functional inputs) vmapped over a batch of amplitudes
             kw = kwargs(cfg)
